@@ -342,18 +342,18 @@ Qed.
 
 Lemma step_request_is_chunk s m l ce re :
   Boundary s -> RI s -> CI s -> PQ s -> is_pending (s_st s) = true ->
-  unwrap_pending (s_st s) = SResend (Some l) ce re -> s_in_buf s = [] ->
+  unwrap_pending (s_st s) = SResend (Some l) ce re ->
   let s' := step s (EIncoming m) in
   is_logged_on (s_st s') = true ->
   forall rq, In rq (resend_requests (rev (s_wire s'))) -> ce <> 0 /\ ce <= s_tgt s'.
 Proof.
-  intros Hb Hri Hci Hpq Hp Hu Hbuf s'. unfold s'. clear s'.
+  intros Hb Hri Hci Hpq Hp Hu s'. unfold s'. clear s'.
   set (c := clear_logs s).
   assert (Hst : step s (EIncoming m) = incoming c (Some m)) by reflexivity. rewrite Hst.
   assert (Hrec : recovering (s_st c)) by (exists (Some l), ce, re; exact Hu).
   assert (Ho : s_out_open c = true) by (destruct Hb as [B1 _]; exact (proj1 (B1 (recovering_connected _ Hrec)))).
   intros Hl rq Hrq.
-  destruct (incoming_req c m (Some l) ce re Hu Hri Hci Ho eq_refl (or_introl Hbuf)) as [H0|(_ & _ & Hne & Hle & _)];
+  destruct (incoming_req c m (Some l) ce re Hu Hri Hci Ho eq_refl (or_intror (logged_on_connected _ Hl))) as [H0|(_ & _ & Hne & Hle & _)];
     [|split; assumption].
   exfalso.
   (* nothing created: the request would have to come out of the queue *)
@@ -426,7 +426,7 @@ Proof.
       * apply forallb_forall. intros rq Hrq.
         change (ob_wire (obs_of (step s (EIncoming m)))) with (rev (s_wire (step s (EIncoming m)))) in Hrq.
         change (ob_tgt (obs_of (step s (EIncoming m)))) with (s_tgt (step s (EIncoming m))).
-        destruct (step_request_is_chunk s m l cur r0 Hb Hri Hci Hpq E1 Hu E2 E3 rq Hrq) as [Hne Hle].
+        destruct (step_request_is_chunk s m l cur r0 Hb Hri Hci Hpq E1 Hu E3 rq Hrq) as [Hne Hle].
         apply andb_true_iff. split; [apply negb_true_iff, Z.eqb_neq; exact Hne | apply Z.leb_le; exact Hle].
   - free_rest.
 Qed.
